@@ -149,6 +149,11 @@ static void run_seq_body(const Plan &p, World &w, Ctx &x, const SeqOpts &so) {
             x.st.add("allocs", (uint64_t)allocs);
             if (op.fk) { x.st.add("fault.alloc.planned"); if (fired) x.st.add("fault.alloc.fired", (uint64_t)fired); }
             x.tr(w.opnames()[op.k] + " -> " + got.show());
+            if (x.o_lock || x.o_enomem) {
+                // function x outcome table (evidence): which exits of which operation were actually taken
+                const char *oc = !got.fail ? (fired ? "ok_despite_fault" : "ok") : (fired ? "enomem_reported" : "refused");
+                x.st.add(("cell." + p.cfg.world + "." + w.opnames()[op.k] + "." + oc).c_str());
+            }
             if (ts) {
                 int dc = sim_take_depth_change();
                 if (dc != 0 && sim_lock_depth() == d0) {
